@@ -82,6 +82,12 @@ def restamped(rng):
     pattern = rng.choice(evtxmut.PATTERNS) + ("" if perm is None else "+chunks%s" % "".join(str(k) for k in perm))
     times = evtxmut.gen_times(rng, evtxmut.records(base), pattern.split("+")[0])
     data = evtxmut.restamp(base, times)
+    if rng.random() < 0.3:
+        # a "dirty" log: stored chunk checksums that no longer match (records intact)
+        nch = evtxmut.used_chunks(data)
+        which = sorted(set((rng.randrange(nch), rng.choice((52, 52, 124))) for _ in range(rng.randint(1, nch))))
+        data = evtxmut.stale_checksums(data, which)
+        pattern += "+stale" + ",".join("%d:%d" % w for w in which)
     recs = dump_bytes(data)
     if [t for (_, _, t) in recs] != [t // 1000 * 1000 for t in times]:      # the evtx crate reads FILETIMEs to the microsecond
         raise RuntimeError("re-stamped event log: the independent reader does not see the times written")
@@ -172,6 +178,8 @@ def run_case(seed, i, tier):
         cr.probes["restamped_" + pattern.split("+")[0]] += 1
         if "+chunks" in pattern:
             cr.probes["chunks_permuted"] += 1
+        if "+stale" in pattern:
+            cr.probes["stale_chunk_checksums"] += 1
     rtimes = set(t for (_, _, t) in recs)
     if a in rtimes or b in rtimes:
         cr.probes["bound_exactly_on_a_record_time"] += 1
@@ -225,8 +233,11 @@ def classes_of(rp):
         base = fixtures.load("pnp")
         pat = rp.get("restamp_pattern") or ""
         if "+chunks" in pat:
-            base = evtxmut.permute_chunks(base, [int(ch) for ch in pat.split("+chunks")[1]])
-        recs = dump_bytes(evtxmut.restamp(base, rp["times_ns"]))
+            base = evtxmut.permute_chunks(base, [int(ch) for ch in pat.split("+chunks")[1].split("+")[0]])
+        data = evtxmut.restamp(base, rp["times_ns"])
+        if "+stale" in pat:
+            data = evtxmut.stale_checksums(data, [tuple(int(x) for x in w.split(":")) for w in pat.split("+stale")[1].split(",")])
+        recs = dump_bytes(data)
     else:
         recs = dump(rp["fixture"])
     if not cl and check(res.stdout, expected_ids(recs, rp["a"], rp["b"])):
@@ -241,7 +252,7 @@ def replay(rp):
 
 RULE = ("one case = a shipped .evtx file (Microsoft-Windows-Kernel-PnP%4Configuration.evtx, 227 records, stored out of "
         "order; NoEvents.evtx) or that file with every record re-stamped (sim/evtxmut.py: shuffled / reversed / all equal / "
-        "tie groups / second edges / increasing; chunk checksums recomputed; half of them with the 64 KiB chunks in another physical order, as in a wrapped log) plain or in gz/bz2/xz/lz4/tar, with no window or a window whose bounds sit exactly on / 1 us "
+        "tie groups / second edges / increasing; chunk checksums recomputed -- then, in 30% of them, left stale in some chunks as in a log copied from a running system; half of them with the 64 KiB chunks in another physical order, as in a wrapped log) plain or in gz/bz2/xz/lz4/tar, with no window or a window whose bounds sit exactly on / 1 us "
         "off / between record times, 35% inside the out-of-order region, optionally next to a text source, under a seeded "
         "schedule; non-trivial = every run; distinct = (file, container, window)")
 ASSUMPTIONS = ["the independent dump uses the same `evtx` crate (record decoding is trusted); ordering, tie rule and windowing are independent",
